@@ -159,7 +159,7 @@ func (tx *Transaction) Commit(ctx context.Context, scope *ReferenceScope, expr p
 			}
 
 			if !tx.Flags.ExportOptions.StripEndingLineBreak && !(fileInfo.Format == option.FIXED && fileInfo.SingleLine) {
-				if _, err := fp.Write([]byte(tx.Flags.ExportOptions.LineBreak.Value())); err != nil {
+				if _, err := fp.Write([]byte(fileInfo.LineBreak.Value())); err != nil {
 					return NewCommitError(expr, err.Error())
 				}
 			}
@@ -186,7 +186,7 @@ func (tx *Transaction) Commit(ctx context.Context, scope *ReferenceScope, expr p
 			}
 
 			if !tx.Flags.ExportOptions.StripEndingLineBreak && !(fileInfo.Format == option.FIXED && fileInfo.SingleLine) {
-				if _, err := fp.Write([]byte(tx.Flags.ExportOptions.LineBreak.Value())); err != nil {
+				if _, err := fp.Write([]byte(fileInfo.LineBreak.Value())); err != nil {
 					return NewCommitError(expr, err.Error())
 				}
 			}
